@@ -185,8 +185,123 @@ fn oracle(c: &Case, rec: &Rec) -> R {
     Ok(())
 }
 
+// ------------------------------------------------- digests next to the modulus (directed search)
+
+#[derive(Clone, Debug, Serialize, Deserialize)]
+pub struct BoundaryCase {
+    seed: u64,
+}
+
+fn boundary_strategy(_t: Tier) -> impl Strategy<Value = BoundaryCase> {
+    any::<u64>().prop_map(|seed| BoundaryCase { seed })
+}
+
+/// Hashes per case. A digest shares the modulus's most significant byte with probability 1/256;
+/// about 7 % of those are >= q.
+const HASHES_PER_CASE: u64 = 40_000;
+
+fn decode_and_check(bytes: &[u8], expect: bool, label: &str, rec: &Rec) -> R {
+    let got = wire::dec::<RevocationPair>(bytes);
+    rec.eval(1);
+    if got.is_ok() != expect {
+        return Err(Fail::new(
+            if expect { "C05/valid-pair-refused".to_string() } else { format!("C05/invalid-pair-decodes/{}", label) },
+            format!("decoding a revocation pair whose SHA3 digest shares the modulus's top byte ({}) returned ok={}, reference says {}; bytes {}", label, got.is_ok(), expect, crate::engine::hex(bytes)),
+        )
+        .obs(got.is_ok().to_string(), expect.to_string()));
+    }
+    if let Ok(p) = got {
+        ensure!(
+            sha3(&[&p.revocation_secret().as_bytes()]) == p.revocation_lock().as_bytes() && wire::enc(&p) == bytes[..65],
+            "C05/decoded-pair-violates-hash-invariant",
+            "a decoded revocation pair has lock != SHA3(secret || index) or re-encodes differently"
+        );
+    }
+    Ok(())
+}
+
+fn boundary_oracle(c: &BoundaryCase, rec: &Rec) -> R {
+    use crate::engine::rng::{Pattern, ScriptedRng, Window};
+    let mut hits_nc = 0u32;
+    let mut hits_c = 0u32;
+    for n in 0..HASHES_PER_CASE {
+        // a canonical scalar encoding by construction: top byte 0
+        let mut secret = [0x5au8; 32];
+        secret[..8].copy_from_slice(&n.to_le_bytes());
+        secret[8..16].copy_from_slice(&c.seed.to_le_bytes());
+        secret[31] = 0;
+        let d = digest(&secret, 0);
+        if d[31] != Q_LE[31] {
+            continue;
+        }
+        let canonical = wire::sc(&d).is_some();
+        let mut bytes = [0u8; 65];
+        bytes[32..64].copy_from_slice(&secret);
+        if canonical && std::env::var_os("ZKVERIF_C05_REJECT_SIDE_ONLY").is_some() {
+            // sensitivity experiments only: look at the refusing direction alone
+            continue;
+        }
+        if canonical {
+            // index 0 is the first index with a canonical digest: the pair generation would return it
+            hits_c += 1;
+            bytes[..32].copy_from_slice(&d);
+            ensure!(reference(&bytes), "harness/reference-disagrees-with-construction", "reference refuses a canonical digest");
+            decode_and_check(&bytes, true, "canonical", rec)?;
+        } else {
+            hits_nc += 1;
+            bytes[..32].copy_from_slice(&scalar_from_le_reduce(&d).to_bytes());
+            ensure!(!reference(&bytes), "harness/reference-disagrees-with-construction", "reference accepts digest mod q");
+            decode_and_check(&bytes, false, "non-canonical/lock=digest-mod-q", rec)?;
+            bytes[..32].copy_from_slice(&d);
+            decode_and_check(&bytes, false, "non-canonical/lock=digest", rec)?;
+            // generation from this secret must move on to the first index with a canonical digest
+            let mut wide = vec![0u8; 64];
+            wide[..32].copy_from_slice(&secret);
+            let mut r = ScriptedRng::new(c.seed ^ n, vec![Window { off: 0, len: 64, pat: Pattern::Bytes(wide) }]);
+            let pair = zkabacus_crypto::internal::test_new_revocation_pair(&mut r);
+            let img = Image::must(&pair);
+            rec.eval(1);
+            if img.get("secret.secret") == secret {
+                let idx = img.get("secret.index")[0];
+                let first = (0u8..=255).find(|i| wire::sc(&digest(&secret, *i)).is_some());
+                ensure!(
+                    Some(idx) == first && img.get("lock") == digest(&secret, idx) && reference(&img.bytes),
+                    "C05/generated-pair-violates-hash-invariant",
+                    "pair generated from a secret whose index-0 digest is >= q (sharing its top byte): index {} (first canonical index {:?}), lock is{} the digest",
+                    idx,
+                    first,
+                    if img.get("lock") == digest(&secret, idx) { "" } else { " NOT" }
+                );
+                rec.class("tie-region/generated-from-such-a-secret");
+            } else {
+                rec.class("tie-region/generator-draws-differently");
+            }
+        }
+    }
+    rec.eval(HASHES_PER_CASE);
+    for _ in 0..hits_nc {
+        rec.class("tie-region/non-canonical/reject");
+    }
+    for _ in 0..hits_c {
+        rec.class("tie-region/canonical/accept");
+    }
+    if hits_nc > 0 {
+        rec.nontrivial(c.seed);
+    }
+    rec.sample("tie-region", || json!({"seed": c.seed, "hashes": HASHES_PER_CASE, "digests sharing the modulus top byte": hits_c + hits_nc, "of which >= q": hits_nc}));
+    Ok(())
+}
+
 pub fn checks() -> Vec<CheckDef> {
     vec![
+        prop_check(
+            "modulus-boundary-digests",
+            "directed search: per case 40 000 secrets (canonical by construction) are hashed with index 0 and every digest that shares the most significant byte of the scalar modulus (1/256 of them; ~7 % of those are >= q) is used: digest >= q => lock = digest mod q and lock = digest must both be refused, and RevocationPair generation fed that secret through a scripted RNG must return the first index whose digest is canonical with lock = that digest; digest < q => the pair (digest, secret, 0) - what generation returns for that secret - must decode, satisfy the hash invariant and re-encode identically; oracle: independent SHA3 + canonical-scalar reference; non-trivial = a case with >= 1 digest >= q in the tie region; distinct by case seed",
+            &["tie-region/non-canonical/reject", "tie-region/canonical/accept", "tie-region/generated-from-such-a-secret"],
+            (480, 20_000),
+            boundary_strategy,
+            boundary_oracle,
+        ),
         prop_check(
             "pair-decoding",
             "generated 65-byte strings lock||secret||index derived from honestly generated pairs: valid; lock / secret / index altered; (secret,index) whose SHA3 digest is not a canonical scalar with lock = digest and lock = digest mod q; lock of another index; random lock; non-canonical secret or lock; random bytes; truncations. Oracle: decode is Ok <=> both scalars canonical and SHA3-256(secret||index) is a canonical scalar encoding equal to the lock (independent reference); every generated or decoded pair satisfies SHA3(revocation_secret().as_bytes()) == revocation_lock().as_bytes() and re-encodes identically; non-trivial = any altered case; distinct by (kind, seed)",
